@@ -194,7 +194,7 @@ def relerr(a, b):
 # the driver's objects (mirrors fullSimulation.main set-up, lines 110-160)
 # ---------------------------------------------------------------------------
 class Pipeline:
-    def __init__(self, comm, f, constants, chi=0, save_step=1, adiabatic=True, edge='fEq', B=None):
+    def __init__(self, comm, f, constants, chi=0, save_step=1, adiabatic=True, edge='fEq', B=None, opts=None):
         from pygyro.model.layout import LayoutSwapper, getLayoutHandler
         from pygyro.model.grid import Grid
         from pygyro.poisson.poisson_solver import DensityFinder, QuasiNeutralitySolver
@@ -206,10 +206,14 @@ class Pipeline:
         self.halfStep = constants.dt * 0.5
         self.fullStep = constants.dt
         # get2DSpline()[0] is the theta spline in each of the three standard layouts
+        opts = opts or {}      # optional arguments of the operators that the driver leaves at their defaults
+        fkw = {k: opts[k] for k in ('zDegree',) if k in opts}
+        pkw = {k: opts[k] for k in ('nulEdge', 'explicitTrap', 'tol') if k in opts}
+        gkw = {k: opts[k] for k in ('order',) if k in opts}
         self.fluxAdv = FluxSurfaceAdvection(f.eta_grid, f.get2DSpline(), f.getLayout('flux_surface'),
-                                            self.halfStep, constants)
+                                            self.halfStep, constants, **fkw)
         self.vParAdv = VParallelAdvection(f.eta_grid, f.getSpline(3), constants, edge=edge)
-        self.polAdv = PoloidalAdvection(f.eta_grid, f.getSpline(slice(1, None, -1)), constants)
+        self.polAdv = PoloidalAdvection(f.eta_grid, f.getSpline(slice(1, None, -1)), constants, **pkw)
         lay = f.getLayout('v_parallel')
         self.parGradVals = np.empty([lay.shape[0], constants.npts[2], constants.npts[1]])
         layout_poisson = {'v_parallel_2d': [0, 2, 1], 'mode_solve': [1, 2, 0]}
@@ -224,15 +228,17 @@ class Pipeline:
                         dtype=np.complex128)
         self.rho = Grid(f.eta_grid[:3], f.getSpline(slice(0, 3)), self.remapperRho, 'v_parallel_2d', comm,
                         dtype=np.complex128)
-        self.density = DensityFinder(6, f.getSpline(3), f.eta_grid, constants)
+        self.density = DensityFinder(int(opts.get('density_degree', 6)), f.getSpline(3), f.eta_grid, constants)
         bkw = {} if B is None else dict(B=float(B))       # the optional magnetic-field factor (default 1)
+        if opts.get('Te_user') is not None:
+            bkw['Te'] = user_Te(opts['Te_user'])      # the optional electron-temperature profile (a callable)
         if adiabatic:
             self.QN = QuasiNeutralitySolver(f.eta_grid[:3], 7, f.getSpline(0), constants, chi=chi, **bkw)
         else:
             self.QN = QuasiNeutralitySolver(f.eta_grid[:3], 7, f.getSpline(0), constants,
                                             adiabaticElectrons=False, **bkw)
         self.parGrad = ParallelGradient(f.getSpline(1), f.eta_grid,
-                                        self.remapperPhi.getLayout('v_parallel_1d'), constants)
+                                        self.remapperPhi.getLayout('v_parallel_1d'), constants, **gkw)
 
     def solve_qn(self):
         """density -> modes -> per-mode solve -> potential (driver lines 176-189)"""
@@ -309,3 +315,29 @@ def smooth_noise(shape, seed, amp=0.1):
         out += term * rs.uniform(0.3, 1.0)
     out += 0.05 * rs.standard_normal(shape)
     return amp * out
+
+
+def gen_operator_options(rng, npts):
+    """Optional constructor arguments of the operators (the driver uses the defaults): finite-difference order of
+    the parallel gradient, Lagrange degree of the flux-surface step along z, boundary and time-integration
+    variants of the poloidal step, quadrature degree of the density integral."""
+    o = {}
+    if rng.random() < 0.5:
+        o['order'] = rng.choice([x for x in (2, 4, 6, 8) if x + 1 <= npts[2]])
+    if rng.random() < 0.4:
+        o['zDegree'] = rng.choice([x for x in (1, 3, 5, 7) if x + 1 <= npts[2]])
+    if rng.random() < 0.3:
+        o['nulEdge'] = True
+    # (explicitTrap=False - an implicit trapezoidal rule solved by a fixed-point iteration without an iteration cap -
+    # is left out: with the amplified potentials used here the iteration need not converge, and no property
+    # promises that it does)
+    if rng.random() < 0.3:
+        o['density_degree'] = rng.choice([7, 8, 10])
+    return o
+
+
+def user_Te(spec):
+    """An electron temperature profile given by the caller instead of the one the constants describe:
+    spec = (level, slope, centre)."""
+    a, b, c0 = spec
+    return lambda r: a * (1.0 + b * np.tanh((np.asarray(r) - c0) / 3.0))
